@@ -36,6 +36,23 @@ class ParamGen:
             v = fn(self.index_rng)
         return v
 
+    @staticmethod
+    def _dag(sub_params, new_nodes, wiring, output):
+        """A parameter graph in which `new_nodes` are wired (wiring: node -> list of inputs, an input is
+        a node or the output node of one of `sub_params`) on top of the given sub-graphs; a node may be
+        listed as input of several nodes (shared)."""
+        nodes, in_nodes = [], {}
+        for sp in sub_params:
+            for n in sp.nodes:
+                if n not in in_nodes and n not in nodes:
+                    nodes.append(n)
+                ins = list(sp.node_inputs(n))
+                if ins:
+                    in_nodes[n] = ins
+        nodes += new_nodes
+        in_nodes.update(wiring)
+        return P.Parameter(nodes, in_nodes, [output])
+
     # leaves
     def leaf(self, shape, positive):
         rng = self.rng
@@ -72,10 +89,11 @@ class ParamGen:
             c += ["exp", "softplus", "sigmoid", "scaled_sigmoid", "clamp", "softmax"]
             if r == 1:
                 c += ["gp_stddev"]
+        c += ["shared_outer_reduce"]
         if not positive:
             c += ["square", "conjugate", "outer_sum"]
             if not self.complex:
-                c += ["log", "logsoftmax", "reduce_lse", "log_of_softmax"]
+                c += ["log", "logsoftmax", "reduce_lse", "log_of_softmax", "shared_softmax"]
                 if r == 1:
                     c += ["gp_mean", "gp_logpartition"]
             if r == 2:
@@ -139,6 +157,26 @@ class ParamGen:
             neg1, neg2 = rng.random() < 0.5, rng.random() < 0.5
             outer = P.Parameter.from_binary(P.OuterProductParameter(s1, s2, axis=oax - (r + 1) if neg1 else oax), sub(s1), sub(s2))
             return P.Parameter.from_sequence(outer, P.ReduceSumParameter(s_mid, axis=pos_ax - (r + 1) if neg2 else pos_ax))
+        if op == "shared_softmax":  # S * log(S): the Softmax node has two consumers (a DAG, not a tree)
+            ax = self._cfg(lambda r_: r_.randrange(r))
+            inner = sub(shape, False)
+            sm, lg, hd = P.SoftmaxParameter(shape, axis=ax), P.LogParameter(shape), P.HadamardParameter(shape, shape)
+            return self._dag([inner], [sm, lg, hd], {sm: [inner.output], lg: [sm], hd: [sm, lg]}, hd)
+        if op == "shared_outer_reduce":  # sum_j O + prod_j O with one shared outer product O
+            if r >= 3:
+                return None
+            pos_ax = rng.randrange(r + 1)
+            m = rng.choice([1, 2, 3, 4])
+            s_mid = shape[:pos_ax] + (m,) + shape[pos_ax:]
+            oax = pos_ax if rng.random() < 0.5 else rng.randrange(r + 1)
+            a, b = rng.choice(_divisor_pairs(s_mid[oax]))
+            s1 = s_mid[:oax] + (a,) + s_mid[oax + 1 :]
+            s2 = s_mid[:oax] + (b,) + s_mid[oax + 1 :]
+            p1, p2 = sub(s1), sub(s2)
+            outer = P.OuterProductParameter(s1, s2, axis=oax)
+            rs, rp = P.ReduceSumParameter(s_mid, axis=pos_ax), P.ReduceProductParameter(s_mid, axis=pos_ax)
+            top = P.SumParameter(shape, shape)
+            return self._dag([p1, p2], [outer, rs, rp, top], {outer: [p1.output, p2.output], rs: [outer], rp: [outer], top: [rs, rp]}, top)
         if op == "exp":
             return P.Parameter.from_unary(P.ExpParameter(shape), sub(shape, False))
         if op == "log":
@@ -208,5 +246,5 @@ ALL_NODE_KINDS = [
 OP_NAMES = [
     "sum", "hadamard", "kronecker", "outer_product", "outer_sum", "index", "reduce_sum", "reduce_prod", "reduce_lse",
     "exp", "log", "square", "softplus", "sigmoid", "scaled_sigmoid", "clamp", "conjugate", "softmax", "logsoftmax",
-    "mixing", "gp_mean", "gp_stddev", "gp_logpartition", "poly_product", "poly_diff", "log_of_softmax", "reduce_sum_of_outer",
+    "mixing", "gp_mean", "gp_stddev", "gp_logpartition", "poly_product", "poly_diff", "log_of_softmax", "reduce_sum_of_outer", "shared_softmax", "shared_outer_reduce",
 ]
